@@ -18,7 +18,8 @@ RULE = (
     "mutations of them (swap / delete / duplicate / move a child, junk or deleted attribute), judged by the Lean validator "
     "over the schema tables regenerated from /repo/spec and by lxml XMLSchema (after markup-compatibility preprocessing); "
     "(b) histories on the real library: seeded sequences of public-API operations (property assignments with in-domain, "
-    "None and out-of-domain values over the property table of harness/oplab.py; add_slide / add_shape(every MSO_SHAPE) / "
+    "None and out-of-domain values over the property table of harness/oplab.py - once systematically, every property x value "
+    "class on a generated deck holding every kind of object, and then in random histories; add_slide / add_shape(every MSO_SHAPE) / "
     "textbox / picture / connector / group / freeform / table / chart(every writable type) / movie / OLE object, placeholder "
     "insert_*, adjustments, fills, backgrounds, line and font colours, text-frame / paragraph / run edits, hyperlinks and "
     "click actions, merges and splits, notes, chart titles / axis titles / data labels / fonts / formats / points, "
@@ -389,6 +390,44 @@ def probe_geometry(ctx):
                      {"call": name, "value": big})
 
 
+def sweep(ctx, reps):
+    """systematic part: every property of the table x every kind of object in a deck that holds them all x
+    {in-domain, None, out-of-domain}: each assignment followed by validation of the changed parts"""
+    from harness.props.c09 import build_deck
+
+    rng = ctx.rng
+    table = oplab.prop_table()
+    for rep in range(reps):
+        prs = build_deck()
+        w = Watch(ctx, f"generated-deck#{rep}")
+        w.check(prs.part.package, "<open>", "ok", [])
+        world = oplab.discover(prs)
+        history = []
+        for p in table:
+            objs = world.objs.get(p.kind, [])
+            if not objs:
+                ctx.count("sweep-no-object:" + p.kind)
+                continue
+            for cls in ("bad", "in", "none", "bad"):
+                if cls == "none" and not p.none_ok:
+                    continue
+                obj, path = rng.choice(objs)
+                v = None if cls == "none" else (p.bad(rng) if cls == "bad" else p.gen(rng))
+                desc = f"{path}.{p.name} = {v!r}"[:200]
+                try:
+                    setattr(obj, p.name, v)
+                    outcome = "ok:" + cls
+                except oplab.REJECT as e:
+                    outcome = f"rejected:{type(e).__name__}:{cls}"
+                except Exception as e:  # noqa
+                    outcome = "raised"
+                    ctx.count(f"undocumented-exception:{type(e).__name__}@{p.kind}.{p.name}")
+                history.append(desc)
+                ctx.count("sweep-" + outcome.split(":")[0] + "-" + cls)
+                ctx.case(key=("sweep", p.kind, p.name, cls, outcome.split(":")[0]))
+                w.check(prs.part.package, desc, outcome, history)
+
+
 def histories(ctx, n_seq, nops):
     decks = [None, None] + common.corpus_decks()
     lines = []
@@ -414,11 +453,13 @@ def correspond(ctx):
     translate(ctx)
     schema_model_tie(ctx, 500 if ctx.quick else 6000)
     probe_geometry(ctx)
+    sweep(ctx, 2 if ctx.quick else 12)
     histories(ctx, 120 if ctx.quick else 1500, 25 if ctx.quick else 40)
 
 
 def search(ctx, hints):
     probe_geometry(ctx)
+    sweep(ctx, 6)
     histories(ctx, 300 if ctx.quick else 2500, 30)
 
 
